@@ -147,7 +147,32 @@ let dp (lines : string list) =
             pr_result "Q" qid r;
             if spec = 1 then pr_result "S" qid (spec_execute (Hashtbl.find datasets ds) q);
             go rest
-          | "HIST" | "ENDHIST" | "CONC" | "LRUD" -> go rest
+          | "HIST" | "ENDHIST" | "CONC" | "LRUD" | "CRASH" | "CLOBBER" | "READONLY" -> go rest
+          | "DAMAGE" ->
+            let cid = next c in let ds = next c in let mode = next c in
+            let _seed = next c in
+            let defects = c.toks in
+            let special = (match defects with ["missing"] | ["zerolen"] | ["garbage"] | ["truncfile"] -> true | _ -> false) in
+            if special then pr "DAMAGE %s ERR\n" cid
+            else begin
+              let dl = List.filter_map (fun d -> match d with
+                | "none" -> None
+                | "nobucket" -> Some DNoBucket | "noS" -> Some DNoS
+                | "truncS" | "randS" | "emptyS" -> Some DBadS
+                | "noI" -> Some DNoI | "I0" -> Some (DBadI (n_of_int 0)) | "I3" -> Some (DBadI (n_of_int 3))
+                | "I5" -> Some (DBadI (n_of_int 5))
+                | "badV1" | "emptyV1" -> Some DBadVOne | "badVall" -> Some DBadVAll
+                | x -> failwith ("defect " ^ x)) defects in
+              let pre = (mode = "preload" || mode = "cached+preload") in
+              (match get_store ds WMem with
+               | Ok s -> (match m_open_index pre (m_damage_store s dl) with
+                          | Ok _ -> pr "DAMAGE %s OK\n" cid
+                          | Err -> pr "DAMAGE %s ERR\n" cid
+                          | Panic -> pr "DAMAGE %s PANIC\n" cid
+                          | Hang -> pr "DAMAGE %s HANG\n" cid)
+               | _ -> pr "DAMAGE %s NOSTORE\n" cid)
+            end;
+            go rest
           | "HQ" ->
             let qid = next c in let ds = next c in let w = writer_of (next c) in
             let pre = (next c = "preload") in
